@@ -213,10 +213,18 @@ class MEIExporter:
                 for onset in unique_onsets:
                     # group by start time
                     notes = voice_notes[note_start_times == onset]
-                    if len(notes) > 1:
-                        self._handle_chord(notes, voice_el)
-                    else:
-                        self._handle_note_or_rest(notes[0], voice_el)
+                    # grace notes share the onset of their main note but are
+                    # separate elements in front of it, not chord members
+                    main_notes = []
+                    for note in notes:
+                        if isinstance(note, spt.GraceNote):
+                            self._handle_note_or_rest(note, voice_el)
+                        else:
+                            main_notes.append(note)
+                    if len(main_notes) > 1:
+                        self._handle_chord(main_notes, voice_el)
+                    elif len(main_notes) == 1:
+                        self._handle_note_or_rest(main_notes[0], voice_el)
 
         self._handle_tuplets(measure_el, start=measure.start.t, end=measure.end.t)
         self._handle_beams(measure_el, start=measure.start.t, end=measure.end.t)
